@@ -19,7 +19,7 @@ import (
 func init() {
 	Register("C27", Extractor{Import: "Hv.Props.C27", Type: "Hv.C27.Facts", Run: func(fs *Facts) {
 		const path = "sdk/go/hydraidego/hydrex/hydrex.go"
-		for _, n := range []string{"updatesExisting", "saveRemovesStale", "destroyCleansIndex", "namesVerbatim", "validatesKeys"} {
+		for _, n := range []string{"updatesExisting", "saveRemovesStale", "destroyCleansIndex", "namesVerbatim", "validatesKeys", "validatesNames"} {
 			fs.Tri(n, Unknown, path)
 		}
 		f, err := Load(path)
@@ -34,22 +34,74 @@ func init() {
 				f.Str(ix.Body.List[0]) == "return name.New().Sanctuary(sanctuaryHydraideIndex).Realm(indexName).Swamp(key)" &&
 				c27Const(f, "sanctuaryHydraideIndex") != "" && c27Const(f, "sanctuaryHydraideCoreData") != "" &&
 				c27Const(f, "sanctuaryHydraideIndex") != c27Const(f, "sanctuaryHydraideCoreData")
-			fs.Tri("namesVerbatim", TriOf(okNames), path+":"+itoa(f.Line(cd)))
-		}
-		// up-front key validation: the first statement of Save is `for key := range items { if key == "" || strings.Contains(key, "/") { …; return } }`
-		if sv := f.Func("hydrex", "Save"); sv != nil && sv.Body != nil && len(sv.Body.List) > 0 {
-			v := No
-			if rs, ok := sv.Body.List[0].(*ast.RangeStmt); ok && f.Str(rs.X) == "items" && len(rs.Body.List) == 1 {
-				if is, ok := rs.Body.List[0].(*ast.IfStmt); ok && f.Str(is.Cond) == `key == "" || strings.Contains(key, "/")` && len(is.Body.List) > 0 {
-					if _, isRet := is.Body.List[len(is.Body.List)-1].(*ast.ReturnStmt); isRet {
-						v = Yes
-					}
-				}
+			if okNames {
+				fs.Tri("namesVerbatim", Yes, path+":"+itoa(f.Line(cd)))
 			}
-			fs.Tri("validatesKeys", v, path+":"+itoa(f.Line(sv)))
 		}
-		save := f.Func("hydrex", "Save")
-		destroy := f.Func("hydrex", "Destroy")
+		// up-front validation.  isNamePart must be `return s != "" && !strings.Contains(s, "/")`.
+		//   validatesNames yes: Save AND Destroy start with `if !isNamePart(indexName) || !isNamePart(domain) { …; return }`
+		//                  no : both start with the statements of the unvalidated code (the key loop / existingCoreData / coreDataName)
+		//   validatesKeys  yes: the next statement of Save is `for key := range items { if <key invalid> { …; return } }`, <key invalid>
+		//                       being `!isNamePart(key)` or `key == "" || strings.Contains(key, "/")`
+		//                  no : Save goes straight to `existingCoreData := …`
+		partOK := false
+		if np := f.Func("", "isNamePart"); np != nil && np.Body != nil && len(np.Body.List) == 1 && np.Type.Params != nil && len(np.Type.Params.List) == 1 && len(np.Type.Params.List[0].Names) == 1 {
+			a := np.Type.Params.List[0].Names[0].Name
+			partOK = f.Str(np.Body.List[0]) == `return `+a+` != "" && !strings.Contains(`+a+`, "/")`
+		}
+		endsInReturn := func(b *ast.BlockStmt) bool {
+			if b == nil || len(b.List) == 0 {
+				return false
+			}
+			_, isRet := b.List[len(b.List)-1].(*ast.ReturnStmt)
+			return isRet
+		}
+		namesGuard := func(st ast.Stmt) bool {
+			is, ok := st.(*ast.IfStmt)
+			if !ok || is.Init != nil || is.Else != nil || !endsInReturn(is.Body) || !partOK {
+				return false
+			}
+			c := f.Str(is.Cond)
+			return c == "!isNamePart(indexName) || !isNamePart(domain)" || c == "!isNamePart(domain) || !isNamePart(indexName)"
+		}
+		keyGuard := func(st ast.Stmt) bool {
+			rs, ok := st.(*ast.RangeStmt)
+			if !ok || f.Str(rs.X) != "items" || rs.Key == nil || len(rs.Body.List) != 1 {
+				return false
+			}
+			k := f.Str(rs.Key)
+			is, ok := rs.Body.List[0].(*ast.IfStmt)
+			if !ok || is.Init != nil || is.Else != nil || !endsInReturn(is.Body) {
+				return false
+			}
+			c := f.Str(is.Cond)
+			return c == k+` == "" || strings.Contains(`+k+`, "/")` || (partOK && c == "!isNamePart("+k+")")
+		}
+		sv, ds := miscFunc(f, "hydrex", "Save"), miscFunc(f, "hydrex", "Destroy")
+		if sv != nil && ds != nil && sv.Body != nil && ds.Body != nil && len(sv.Body.List) > 1 && len(ds.Body.List) > 0 {
+			rest := sv.Body.List
+			sN, dN := namesGuard(rest[0]), namesGuard(ds.Body.List[0])
+			if sN {
+				rest = rest[1:]
+			}
+			plainSave := strings.HasPrefix(f.Str(rest[0]), "existingCoreData := ")
+			switch {
+			case keyGuard(rest[0]):
+				fs.Tri("validatesKeys", Yes, path+":"+itoa(f.Line(rest[0])))
+				plainSave = len(rest) > 1 && strings.HasPrefix(f.Str(rest[1]), "existingCoreData := ")
+			case plainSave:
+				fs.Tri("validatesKeys", No, path+":"+itoa(f.Line(rest[0])))
+			}
+			plainDestroy := f.Str(ds.Body.List[0]) == "coreDataName := h.createCoreDataName(indexName, domain)"
+			switch {
+			case sN && dN && plainSave:
+				fs.Tri("validatesNames", Yes, path+":"+itoa(f.Line(sv)))
+			case !sN && !dN && plainSave && plainDestroy:
+				fs.Tri("validatesNames", No, path+":"+itoa(f.Line(sv)))
+			}
+		}
+		save := miscFunc(f, "hydrex", "Save")
+		destroy := miscFunc(f, "hydrex", "Destroy")
 		if save == nil || destroy == nil || save.Body == nil || destroy.Body == nil {
 			return
 		}
@@ -71,8 +123,15 @@ func init() {
 					strings.Contains(body, "SwampName: h.createIndexName(indexName, key)") && strings.Contains(body, "Keys: []string{domain}")
 				calls := f.Contains(save, "CatalogDeleteManyFromMany(ctx, deleteManyFromManyReq,") &&
 					f.Contains(save, "CatalogDeleteMany(ctx, coreDataName, itemsForDelete,")
-				if shape {
-					fs.Tri("saveRemovesStale", TriOf(fills && calls), path+":"+itoa(f.Line(rs)))
+				// `no` needs positive evidence: the loop collects the stale keys as modelled, and one of the two delete calls is
+				// ABSENT from Save altogether; anything else that does not match stays unknown
+				noIdx := len(f.CallsSuffix(save, ".CatalogDeleteManyFromMany")) == 0
+				noCore := len(f.CallsSuffix(save, ".CatalogDeleteMany")) == 0
+				switch {
+				case shape && fills && calls:
+					fs.Tri("saveRemovesStale", Yes, path+":"+itoa(f.Line(rs)))
+				case shape && fills && (noIdx || noCore):
+					fs.Tri("saveRemovesStale", No, path+":"+itoa(f.Line(rs)))
 				}
 			case "items":
 				body := f.Str(rs.Body)
@@ -95,7 +154,12 @@ func init() {
 			collects := f.Contains(reads[0], "deleteManyFromManyReq = append(deleteManyFromManyReq") &&
 				f.Contains(reads[0], "SwampName: h.createIndexName(indexName, m.Key)") && f.Contains(reads[0], "Keys: []string{domain}")
 			calls := f.Contains(destroy, "CatalogDeleteManyFromMany(ctx, deleteManyFromManyReq,")
-			fs.Tri("destroyCleansIndex", TriOf(collects && calls), path+":"+itoa(f.Line(destroy)))
+			switch {
+			case collects && calls:
+				fs.Tri("destroyCleansIndex", Yes, path+":"+itoa(f.Line(destroy)))
+			case len(f.CallsSuffix(destroy, ".CatalogDeleteManyFromMany")) == 0:
+				fs.Tri("destroyCleansIndex", No, path+":"+itoa(f.Line(destroy)))
+			}
 		}
 	}})
 }
